@@ -51,6 +51,8 @@ def gen_values(rng, k):
         for _ in range(rng.choice([0, 1, 2, 3])):
             d[rstr(rng)] = relem(rng)
         out.append(d)
+    # values that compare equal but are different JSON values, in both orders (memoised renderings keyed by == would mix them up)
+    out += [1.0, True, 0.0, False, -0.0, False, True, 1, 1.0, False, 0, 0.0, True]
     out += [None, (1, 2), {1, 2}, 1 + 2j, object]
     return out
 
